@@ -201,6 +201,18 @@ Proof.
   rewrite zskipn_zskipn by lia. f_equal. lia.
 Qed.
 
+Lemma sub_sub (b : bytes) a l o w : 0 <= a -> 0 <= o -> 0 <= w -> o + w <= l ->
+  sub o w (sub a l b) = sub (a + o) w b.
+Proof.
+  intros Ha Ho Hw Hl. unfold sub. replace (a + o) with (o + a) by lia. rewrite <- (zskipn_zskipn o a) by lia.
+  generalize (zskipn a b) as X. intros X. unfold zfirstn, zskipn.
+  rewrite skipn_firstn_comm, firstn_firstn. f_equal. lia.
+Qed.
+
+Lemma rd_sub (b : bytes) a l o (w : nat) : 0 <= a -> 0 <= o -> o + Z.of_nat w <= l ->
+  rd o w (sub a l b) = rd (a + o) w b.
+Proof. intros. unfold rd. f_equal. apply sub_sub; lia. Qed.
+
 Lemma enc_toks_dec n : forall x, bytes_ok x = true -> zlen x = 8 * Z.of_nat n ->
   enc_toks (dec_toks n x) = x /\ forallb wf_pair (dec_toks n x) = true /\ length (dec_toks n x) = n.
 Proof.
@@ -211,8 +223,8 @@ Proof.
     + rewrite zlen_zskipn by lia. lia.
     + rewrite enc_toks_cons, E. unfold enc_pair. cbn [fst snd forallb length]. rewrite W, Ln. repeat split.
       * rewrite !le_enc_rd by (auto; simpl; lia). rewrite <- app_assoc.
-        rewrite (sub_glue_r x 0 4 4 4) by lia. change (sub 0 (4 + 4) x ++ zskipn 8 x = x).
-        rewrite (sub_zskipn x 0 8 8) by lia. reflexivity.
+        rewrite (sub_glue_r x 0 4 4 4) by lia.
+        rewrite (sub_zskipn x 0 (4 + 4) 8) by lia. reflexivity.
       * pose proof (rd_bound x 0 4 OK ltac:(lia) ltac:(simpl; lia)).
         pose proof (rd_bound x 4 4 OK ltac:(lia) ltac:(simpl; lia)).
         unfold wf_pair. cbn [fst snd]. pw. lia.
@@ -249,6 +261,7 @@ Proof.
     rewrite (sub_glue_r b 0 4 4 2) by lia.
     rewrite (sub_glue_r b 0 (4 + 2) 6 10) by lia.
     rewrite (sub_glue_r b 0 (4 + 2 + 10) 16 (sz - 16)) by lia.
+    change (skipn (Z.to_nat sz) b) with (zskipn sz b).
     rewrite (sub_zskipn b 0 (4 + 2 + 10 + (sz - 16)) sz) by lia. reflexivity.
   - cbn [forallb]. rewrite Wr, andb_true_r. unfold wf_type. rewrite St. unfold t. cbn [ty_h1 ty_h2 ty_toks].
     rewrite !zlen_sub by lia. rewrite !bytes_ok_sub by auto. rewrite Wx. cbn [Z.eqb Pos.eqb andb]. pw. lia.
@@ -291,6 +304,7 @@ Proof.
       rewrite (sub_glue_r b 0 (4 + 2 + 2 + 4) 12 4) by lia.
       rewrite (sub_glue_r b 0 (4 + 2 + 2 + 4 + 4) 16 (soh - 16)) by lia.
       rewrite (sub_glue_r b 0 (4 + 2 + 2 + 4 + 4 + (soh - 16)) soh (sz - soh)) by lia.
+      change (skipn (Z.to_nat sz) b) with (zskipn sz b).
       rewrite (sub_zskipn b 0 _ sz) by lia. reflexivity.
     + cbn [forallb]. rewrite Wr, andb_true_r. unfold wf_group. fold g. rewrite Sg. unfold g.
       rewrite !zlen_sub by lia. rewrite !bytes_ok_sub by auto. rewrite Wt. cbn [Z.eqb Pos.eqb andb]. pw. lia.
@@ -306,14 +320,11 @@ Proof.
       change (Z.of_nat 4) with 4.
       rewrite (sub_glue_r b 0 12 12 4) by lia.
       rewrite (sub_glue_r b 0 (12 + 4) 16 (sz - 16)) by lia.
+      change (skipn (Z.to_nat sz) b) with (zskipn sz b).
       rewrite (sub_zskipn b 0 _ sz) by lia. reflexivity.
     + cbn [forallb]. rewrite Wr, andb_true_r. unfold wf_group. fold g. rewrite Sg. unfold g.
       rewrite !zlen_sub by lia. rewrite !bytes_ok_sub by auto.
-      replace (rd 4 2 (sub 0 12 b)) with (rd 4 2 b).
-      2:{ unfold rd. f_equal. unfold sub. change (zskipn 0 b) with b.
-          rewrite <- (zfirstn_zskipn 12 b) at 1. symmetry.
-          pose proof (sub_app_l (zfirstn 12 b) (zskipn 12 b) 4 (Z.of_nat 2)) as X. unfold sub in X. apply X; try (simpl; lia).
-          rewrite zlen_zfirstn; simpl; lia. }
+      rewrite rd_sub by (simpl; lia). simpl Z.add.
       rewrite EID. cbn [Z.eqb Pos.eqb andb negb]. pw. lia.
 Qed.
 
@@ -344,26 +355,8 @@ Proof.
     rewrite (sub_zskipn b 0 _ size) by lia. reflexivity. }
   split; [exact E|].
   unfold wf_blob. rewrite E. unfold s. cbn [bl_h1 bl_h2 bl_groups bl_slack].
-  rewrite !zlen_sub by lia. rewrite !bytes_ok_sub by auto. rewrite bytes_ok_skipn by auto. rewrite WG, E32.
-  replace (rd 0 4 (sub 0 8 b)) with (rd 0 4 b).
-  2:{ unfold rd. f_equal. unfold sub. change (zskipn 0 b) with b.
-      rewrite <- (zfirstn_zskipn 8 b) at 1. symmetry.
-      pose proof (sub_app_l (zfirstn 8 b) (zskipn 8 b) 0 (Z.of_nat 4)) as X. unfold sub in X. apply X; try (simpl; lia).
-      rewrite zlen_zfirstn; simpl; lia. }
-  replace (rd 20 4 (sub 12 116 b)) with (rd 32 4 b).
-  2:{ unfold rd, sub. f_equal. symmetry.
-      rewrite <- (zfirstn_zskipn 116 (zskipn 12 b)) at 2.
-      pose proof (sub_app_l (zfirstn 116 (zskipn 12 b)) (zskipn 116 (zskipn 12 b)) 20 (Z.of_nat 4)) as X.
-      unfold sub in X. rewrite zskipn_zskipn by lia. simpl Z.add.
-      assert (Y : zskipn 20 (zskipn 12 b) = zskipn 32 b) by (rewrite zskipn_zskipn by lia; reflexivity).
-      rewrite <- Y. symmetry. rewrite <- (zfirstn_zskipn 116 (zskipn 12 b)) at 1.
-      apply X; try (simpl; lia). rewrite zlen_zfirstn; simpl; try lia. rewrite zlen_zskipn; lia. }
-  replace (rd 112 4 (sub 12 116 b)) with (rd 124 4 b).
-  2:{ unfold rd, sub. f_equal.
-      pose proof (sub_app_l (zfirstn 116 (zskipn 12 b)) (zskipn 116 (zskipn 12 b)) 112 (Z.of_nat 4)) as X.
-      unfold sub in X.
-      assert (Y : zskipn 112 (zskipn 12 b) = zskipn 124 b) by (rewrite zskipn_zskipn by lia; reflexivity).
-      rewrite <- Y. rewrite <- (zfirstn_zskipn 116 (zskipn 12 b)) at 1.
-      apply X; try (simpl; lia). rewrite zlen_zfirstn; simpl; try lia. rewrite zlen_zskipn; lia. }
+  rewrite !zlen_sub by lia. rewrite !bytes_ok_sub by auto.
+  replace (bytes_ok (zskipn size b)) with true by (symmetry; apply bytes_ok_skipn; auto). rewrite WG, E32.
+  rewrite !rd_sub by (simpl; lia). simpl Z.add.
   rewrite S1, S2, S3. reflexivity.
 Qed.
